@@ -17,6 +17,8 @@ CONSTANTS
   Reorder = TRUE
   RecvAnywhere = FALSE
   PropsOn <- P_C14
+  MaxHostile = 0
+  HostileSet = "none"
   ExportAll = TRUE
   Export = TRUE
 INVARIANT NoFlag
